@@ -48,9 +48,10 @@ class Boom(Exception):
 
 class Bottom(Probe):
     armed = False
+    fail_tags = ()        # a write whose bytes contain one of these fails (a pong for a particular ping, whenever it is flushed)
 
     def send(self, data):
-        if self.armed:
+        if self.armed or any(t in bytes(data) for t in self.fail_tags):
             raise Boom("write error")
         self.sent.append(data)
 
@@ -60,9 +61,10 @@ class Bottom(Probe):
 
 class Top(Probe):
     armed = False
+    fail_from = ()        # senders whose stanza makes the application callback raise (also when flushed later)
 
     def receive(self, data):
-        if self.armed:
+        if self.armed or (hasattr(data, "getFrom") and data.getFrom() in self.fail_from):
             raise Boom("application callback raised")
         self.received.append(data)
 
@@ -118,9 +120,16 @@ def cases(chk):
                 yield "seq", {"ops": ops, "threads": [0] * (pos + 1) + [th] * (4 - pos)}
     if not chk.quick():
         yield "seq", {"ops": ["send-oversized", "send-ok", "recv-ok"], "threads": [0, 1, 0]}
+    # frames that arrive while the handshake is still running are only queued ("q:" prefix) and flushed in one batch later
+    yield "seq", {"ops": ["q:recv-callback-raises", "q:recv-ok", "q:recv-ok", "recv-ok", "recv-ok"], "threads": [0, 0, 0, 0, 1]}
+    yield "seq", {"ops": ["q:recv-ok", "q:recv-undecodable", "q:recv-ok", "recv-ok", "send-ok", "recv-ok"], "threads": [0, 0, 0, 0, 0, 0]}
+    yield "seq", {"ops": ["q:recv-ok", "q:recv-rejected", "recv-ok", "recv-ok"], "threads": [0, 0, 1, 0]}
     for _ in range(chk.scale(120, 3000)):
         n = r.randint(2, 7)
         ops = [r.choice(sk + rk) for _ in range(n)]
+        for i in range(n - 1):
+            if ops[i] in ("recv-ok", "recv-undecodable", "recv-rejected", "recv-callback-raises") and r.random() < 0.4:
+                ops[i] = "q:" + ops[i]        # queued frames never write downward, so they are independent of write faults
         yield "seq", {"ops": ops, "threads": [r.choice([0, 1]) for _ in range(n)]}
 
 
@@ -136,12 +145,12 @@ def _stanza_bytes(kind, seq):
     if kind == "recv-undecodable":
         return b"\x00\xf8\x02\xf7\x01"      # unknown control byte at tag position
     if kind in ("recv-ping", "recv-ping-write-error"):
-        node = ProtocolTreeNode("iq", {"id": "p%d" % seq, "type": "get", "xmlns": "urn:xmpp:ping", "from": "s.whatsapp.net"})
+        node = ProtocolTreeNode("iq", {"id": "pingid-%d-x" % seq, "type": "get", "xmlns": "urn:xmpp:ping", "from": "s.whatsapp.net"})
     elif kind == "recv-rejected":
         node = ProtocolTreeNode("notification", {"id": "n%d" % seq, "type": "picture", "from": "123@s.whatsapp.net", "t": "1"},
                                 [ProtocolTreeNode("unknown", {})])
     else:
-        node = ProtocolTreeNode("presence", {"from": "123@s.whatsapp.net", "type": "available" if kind != "recv-ok" else "unavailable"})
+        node = ProtocolTreeNode("presence", {"from": "%d@s.whatsapp.net" % (100000 + seq), "type": "available" if kind != "recv-ok" else "unavailable"})
     return bytes(bytearray(WriteEncoder(TokenDictionary()).protocolTreeNodeToBytes(node)))
 
 
@@ -175,15 +184,46 @@ def run_case(chk, stream, case):
     stack, insts, bottom, top, noise = build()
     d = chk.driver
     d.ask("locks reset %d %d" % (N, P))
+    queued_kinds = []
     layer_lock = [(_locks_of(i) or [None])[0] for i in insts]
     flush_lock = (_locks_of(noise) + [None, None])[1]
     qlen = lambda: (getattr(noise, "_incoming_segments_queue", None).qsize() if hasattr(noise, "_incoming_segments_queue") else None)
     seq = 0
+    sent_ok = []        # ids (sequence numbers) of fault-free presence frames, in arrival order
+    pending_fail = 0    # queued frames whose handling will fail at the next flush
     for opi, (kind, th) in enumerate(zip(case["ops"], case["threads"])):
         seq += 1
         chk.hit(kind, "thread=%d" % th)
-        bottom.armed = kind in ("send-write-error", "recv-ping-write-error")
-        top.armed = kind == "recv-callback-raises"
+        if kind.startswith("q:"):
+            base = kind[2:]
+            if base == "recv-callback-raises":
+                top.fail_from = tuple(top.fail_from) + ("%d@s.whatsapp.net" % (100000 + seq),)
+            body = noisefake.wire(_stanza_bytes(base, seq))
+            frame = _be24(len(body)) + body
+            noise._wa_noiseprotocol._machine.set_state("handshake")     # handshake still running: receive() only queues
+            try:
+                stack.receive(frame)
+            finally:
+                noise._wa_noiseprotocol._machine.set_state("transport")
+            fa, ra, rf = RECV_KINDS[base]
+            model = d.ask("locks enq %d %s %s %s" % (seq, "-" if fa is None else fa, "-" if ra is None else ra, "-" if rf is None else rf))
+            q = qlen()
+            impl = "ok held=%s flush=0 queue=%s" % (",".join("0" for _ in layer_lock), "?" if q is None else q)
+            m = model.rsplit(" delivered=", 1)[0]
+            if q is None:
+                m = m.rsplit(" queue=", 1)[0] + " queue=?"
+            if impl != m:
+                fails.append(corr("seq:enqueue", "op #%d %s: impl=%s model=%s" % (opi, kind, impl, m)))
+            if base == "recv-ok":
+                sent_ok.append(seq)
+            queued_kinds.append((seq, base))
+            continue
+        bottom.armed = kind == "send-write-error"
+        if kind == "recv-ping-write-error":
+            bottom.fail_tags = tuple(bottom.fail_tags) + (b"pingid-%d-x" % seq,)
+        top.armed = False
+        if kind == "recv-callback-raises":
+            top.fail_from = tuple(top.fail_from) + ("%d@s.whatsapp.net" % (100000 + seq),)
         nb, nt = len(bottom.sent), len(top.received)
         if kind.startswith("send"):
             if kind == "send-unencodable":
@@ -236,6 +276,22 @@ def run_case(chk, stream, case):
         # ---- property oracle on the real code
         what = None
         expect_fail = kind not in ("send-ok", "recv-ok", "recv-ping")
+        must_deliver = []
+        if kind.startswith("recv"):
+            # the flush hands up every queued frame in order, then this one; the first failing frame is consumed
+            # and reported, the frames behind it stay queued for the next flush
+            batch = queued_kinds + [(seq, kind)]
+            queued_kinds = []
+            expect_fail = False
+            for bi, (bseq, bkind) in enumerate(batch):
+                if bkind not in ("recv-ok", "recv-ping"):
+                    expect_fail = True
+                    queued_kinds = batch[bi + 1:]
+                    break
+                if bkind == "recv-ok":
+                    must_deliver.append(bseq)
+            got_from = [e.getFrom() for e in top.received[nt:] if hasattr(e, "getFrom")]
+            want_from = ["%d@s.whatsapp.net" % (100000 + x) for x in must_deliver]
         if res == "blocked":
             what = ("C12:blocks-forever", "op #%d %s (thread %d) never completes: %s" % (opi, kind, th, err))
         elif expect_fail and res != "raised":
@@ -248,9 +304,10 @@ def run_case(chk, stream, case):
                     "after op #%d %s (%s) these locks stay held: %s" % (opi, kind, res, ", ".join(names)))
         elif kind == "send-ok" and len(bottom.sent) - nb != 2:
             what = ("C12:followup-incomplete", "fault-free send wrote %d chunks to the network instead of header+payload" % (len(bottom.sent) - nb))
-        elif kind == "recv-ok" and len(top.received) - nt < 1:
-            what = ("C12:followup-incomplete", "fault-free incoming frame #%d was not delivered to the application" % opi)
-        elif kind == "recv-ping" and len(bottom.sent) - nb != 2:
+        elif kind.startswith("recv") and res != "blocked" and got_from != want_from:
+            what = ("C12:frames-lost-or-reordered", "op #%d %s: frames delivered to the application %s, expected %s (frames queued behind a failing one must "
+                    "be delivered by the next flush)" % (opi, kind, got_from, want_from))
+        elif kind == "recv-ping" and not queued_kinds and not expect_fail and len(bottom.sent) - nb < 2:
             what = ("C12:followup-incomplete", "ping #%d got %d chunks written instead of one pong frame" % (opi, len(bottom.sent) - nb))
         if what:
             fails.append(oracle(what[0], "sequence %s threads %s: %s" % (case["ops"], case["threads"], what[1])))
